@@ -30,7 +30,7 @@ var stringPool = []string{
 	"\"", "'", "\\", "#", " #", ": ", "- a", "? a", "{a}", "[a]", "&a", "*a", "!t", "|", ">", "%", "@", "`", "<<",
 	"\x01", "\x1f", "\x7f", "\u0080", "\u0085", "\u009f", "\u00a0", "\u2028", "\u2029", "\ufeff", "\ufffd", "\U0001F600",
 	strings.Repeat("long line ", 30), "", "a: b", "key: value # comment", "---", "...", "a,b", "=", "x=y=z", "\\n", "%YAML", "\u200b",
-	"multi\n\nline\n", "  ", "\t", "'quoted'", "\"dq\"", "é", "\ufffe", "\uffff", "a\ufffeb", "\U0001FFFE", "\U0010FFFF", "\ufdd0", "\u061c", "\u200e", "\ue000", "\ud7ff",
+	"multi\n\nline\n", "  ", "\t", "'quoted'", "\"dq\"", "é", "\ufffe", "\uffff", "a\ufffeb", "\n", "\nx", "\n\nx", "\nx\n", "\n x", "\t\nx", "\n\n", "\n#x", "\r\nx", "x\n\ty", " \n \n", "\U0001FFFE", "\U0010FFFF", "\ufdd0", "\u061c", "\u200e", "\ue000", "\ud7ff",
 }
 
 type rtRow struct {
